@@ -578,29 +578,32 @@ pub fn oracle_one(c: &[u64]) -> Vec<String> {
         // block stretch-fit: a block root with auto width fills a definite available width
         let stretch = if c[1] == 0 && ax == 0 { p.width.map(|a| a - margin_sum) } else { None };
         let outer = sd.or(stretch);
-        if r[21] == 1 {
-            // the measure function receives the available content-box space
+        if r[21] == 1 && ratio.is_none() {
+            // the measure function receives the available content-box space (leaf_spec_measure_avail)
             let inset = pb[ax] + gut[ax];
-            let exp = match outer {
-                Some(o) => Some(clamp(o, lo, hi).max(if sd.is_none() || c[1] == 0 { pb[ax] } else { f32::NEG_INFINITY })),
-                None => avs[ax].into_option().map(|a| clamp(a - margin_sum, lo, hi)),
+            let avm = avs[ax].into_option().map(|a| a - margin_sum);
+            let assumed = if c[1] == 0 {
+                let forced = match (lo, hi) {
+                    (Some(l), Some(hh)) if hh <= l => Some(l),
+                    _ => None,
+                };
+                forced.or(sd.map(|v| clamp(v, lo, hi))).or(stretch).map(|v| v.max(pb[ax])).or(avm)
+            } else {
+                sd.or(avm)
             };
-            match (exp, giv[ax]) {
-                (Some(e), AvailableSpace::Definite(gv)) => {
-                    // block roots floor the outer size at padding+border before the inset is removed, other roots do not:
-                    // accept either (the property does not say)
-                    let alt = outer.map(|o| clamp(clamp(o, lo, hi).max(pb[ax]), lo, hi) - inset);
-                    let alt2 = outer.map(|o| clamp(o, lo, hi) - inset);
-                    if !(tol(gv, e - inset) || alt.map_or(false, |a| tol(gv, a)) || alt2.map_or(false, |a| tol(gv, a))) {
-                        fails.push(format!("measure got available {name} {gv}, content box is {}", e - inset));
+            match (assumed, giv[ax]) {
+                (Some(bx), AvailableSpace::Definite(gv)) => {
+                    let e = clamp(bx, lo, hi) - inset;
+                    if !tol(gv, e) {
+                        fails.push(format!("measure got available {name} {gv}, the content box is {e}"));
                     }
                 }
                 (None, g2) if g2 == avs[ax] => {}
-                (e, g2) => fails.push(format!("measure got available {name} {g2:?}, expected {e:?}")),
+                (e, g2) => fails.push(format!("measure got available {name} {g2:?}, expected {e:?} (content box) / {:?}", avs[ax])),
             }
-            if known.width.is_some() || known.height.is_some() {
-                fails.push("root leaf measured with known dimensions".into());
-            }
+        }
+        if r[21] == 1 && ax == 0 && (known.width.is_some() || known.height.is_some()) {
+            fails.push("root leaf measured with known dimensions".into());
         }
         if ratio.is_some() {
             continue; // equality and clamping clauses: known finding with aspect ratio, checked separately
@@ -714,7 +717,9 @@ fn oracle_tree(seed: u64, idx: u64) -> Option<String> {
 }
 
 pub fn main(args: &[String]) {
-    std::panic::set_hook(Box::new(|_| {}));
+    if std::env::var("VH_PANIC_MSG").is_err() {
+        std::panic::set_hook(Box::new(|_| {}));
+    }
     match args[0].as_str() {
         "cases" => {
             let seed: u64 = args[1].parse().unwrap();
@@ -747,6 +752,19 @@ pub fn main(args: &[String]) {
             }
             emit(&c);
         }
+        "tree" => {
+            // debugging aid: `vh c19 tree <seed> <idx>` prints the generated tree of the measure-dispatch oracle
+            let seed: u64 = args[1].parse().unwrap();
+            let idx: u64 = args[2].parse().unwrap();
+            let mut rng = Rng::new(seed.wrapping_mul(0x9E37_79B9).wrapping_add(idx) ^ 0xC19);
+            let mut cfg = treegen::GenCfg::default();
+            cfg.p_hidden = 150;
+            cfg.max_nodes = 14;
+            let spec = treegen::tree(&mut rng, &cfg);
+            let av = treegen::avail(&mut rng, &cfg);
+            println!("{:#?}\navail={:?}", spec, av);
+            println!("{:?}", oracle_tree(seed, idx));
+        }
         "oracle" => {
             let seed: u64 = args[1].parse().unwrap();
             let n: u64 = args[2].parse().unwrap();
@@ -778,15 +796,29 @@ pub fn main(args: &[String]) {
             }
             let nt = n / 4;
             let mut ntf = 0;
+            let mut npanic = 0;
             for i in 0..nt {
-                if let Some(m) = oracle_tree(seed, i) {
-                    if ntf < 3 {
-                        println!("FAIL tree {} {} :: {} {}", i, m, seed, i);
+                // a panic inside the engine on a multi-node tree is property C03's business, not this one's: counted, not failed
+                match std::panic::catch_unwind(|| oracle_tree(seed, i)) {
+                    Ok(Some(m)) => {
+                        if ntf < 3 {
+                            println!("FAIL tree {} {} :: {} {}", i, m, seed, i);
+                        }
+                        ntf += 1;
                     }
-                    ntf += 1;
+                    Ok(None) => {}
+                    Err(_) => {
+                        if npanic < 3 {
+                            println!("PANIC tree {} {}", seed, i);
+                        }
+                        npanic += 1;
+                    }
                 }
             }
-            println!("ORACLE leaf={} with_ratio={} fails={} ratio_deviations={} trees={} tree_fails={}", n, nr, nfail, nratio, nt, ntf);
+            println!(
+                "ORACLE leaf={} with_ratio={} fails={} ratio_deviations={} trees={} tree_fails={} tree_panics={}",
+                n, nr, nfail, nratio, nt, ntf, npanic
+            );
         }
         _ => {
             eprintln!("c19: unknown command");
